@@ -153,7 +153,7 @@ def stage_pbt(pid, stage, tier):
                 out.stats.append(st)
             if not out.failure:
                 out.failure = (found[0], found[1], stage, log)
-                out.campaign = {"driver": stage["driver"], "args": [a for a in jobs[k][0][1:]],
+                out.campaign = {"driver": stage["driver"], "variant": stage.get("variant", "asan"), "args": _campaign_args(stage, jobs[k][0]),
                                 "rc_params": jobs[k][1].get("RC_PARAMS", "")}
             continue
         if rc == 2 and "GENERATOR-ERROR" in read_tail(log):
@@ -169,7 +169,12 @@ def stage_pbt(pid, stage, tier):
             shutil.copyfile(crash_case, crash_copy)
         out.notes.append("shard %d died with status %s (%s)" % (k, rc, sanitizer_summary(log)))
         found = None
-        if mode == "run":
+        if out.failure:
+            continue  # one failure is enough; the other dead shards are listed in the notes
+        out.campaign = {"driver": stage["driver"], "variant": stage.get("variant", "asan"), "args": _campaign_args(stage, jobs[k][0]),
+                        "rc_params": jobs[k][1].get("RC_PARAMS", "")}
+        # schedule-dependent stages: shrinking by re-running is pointless (the failure is a sample of the schedule)
+        if mode == "run" and not stage.get("schedule_dependent"):
             cmd, env, to, _ = jobs[k]
             flog = os.path.join(wd, "forklog-%d.txt" % k)
             rc2, _ = run_proc(cmd + ["--fork"], env, max(180, int(20 * results[k][1])), flog)
@@ -184,6 +189,12 @@ def stage_pbt(pid, stage, tier):
             if not out.failure:
                 out.failure = (log, "process died (status %s) and no crash case was captured: %s" % (rc, sanitizer_summary(log)), stage, log)
     return out
+
+
+def _campaign_args(stage, cmd):
+    """The driver's own arguments of a shard command (wrapper and binary stripped)."""
+    n = len(stage.get("wrapper", [])) + 1
+    return [a for a in cmd[n:]]
 
 
 def sanitizer_summary(log):
@@ -275,7 +286,7 @@ def _campaign_run(pid, camp, timeout=3600):
         return any(a.startswith("crash-") for a in os.listdir(adir))
     stage = None
     for st in PROPS[pid]["stages"]:
-        if st.get("driver") == camp["driver"] and st["kind"] == "pbt":
+        if st.get("driver") == camp["driver"] and st["kind"] == "pbt" and st.get("variant", "asan") == camp.get("variant", st.get("variant", "asan")):
             stage = st
             break
     if stage is None:
@@ -299,7 +310,8 @@ def _campaign_run(pid, camp, timeout=3600):
     env.update(stage.get("env", {}))
     log = os.path.join(wd, "log.txt")
     rc, _ = run_proc(cmd, env, timeout, log)
-    return rc == 1 and fail_from_log(log) is not None
+    # an ordinary property failure, or the process was ended by a sanitizer report (exitcode=86 in *SAN_OPTIONS)
+    return (rc == 1 and fail_from_log(log) is not None) or rc == 86
 
 
 def campaign_confirm(pid, camp):
@@ -478,10 +490,17 @@ def run_check(pid, tier):
         print("[%s] candidate failure: %s\n      why: %s" % (pid, path, failure[1]))
         confirmed = 0
         if os.path.exists(path) and (path.endswith(".case") or failure[2]["kind"] != "pbt"):
-            for _ in range(3):
+            # Deterministic checks: the saved case must fail in all of 3 isolated replays.  Schedule-dependent stages (C19: the
+            # harness does not own the thread schedule, a failure is a sample of it): up to 12 replays, two further failures
+            # confirm it - on a tree where the property holds no replay ever ends in a sanitizer report or a digest mismatch.
+            nondet = bool(failure[2].get("schedule_dependent"))
+            runs, need = (12, 2) if nondet else (3, 3)
+            for _ in range(runs):
                 if replay_once(pid, path):
                     confirmed += 1
-            if confirmed == 3:
+                if confirmed >= need:
+                    break
+            if confirmed >= need:
                 violations = 1
             elif failed_outcome is not None and getattr(failed_outcome, "campaign", None) and campaign_confirm(pid, failed_outcome.campaign):
                 # The single case passes in isolation but the same campaign (same binary, same seed, same case order in one
@@ -492,8 +511,8 @@ def run_check(pid, tier):
                            "state survives between independent uses of the library", failure[2], failure[3])
                 violations = 1
             else:
-                notes.append("a candidate failure (%s) reproduced only %d/3 times and was not reported" % (path, confirmed))
-                print("[%s] candidate reproduced %d/3 times: NOT reported as a violation" % (pid, confirmed))
+                notes.append("a candidate failure (%s) reproduced only %d/%d times and was not reported" % (path, confirmed, runs))
+                print("[%s] candidate reproduced %d/%d times: NOT reported as a violation" % (pid, confirmed, runs))
         else:
             violations = 1  # crash log only
         if violations:
